@@ -2,7 +2,7 @@
    Proved here, for the model of src/optimizer.rs (Model/Optimizer.v) against the IR semantics (Spec/IRSem.v):
    a refinement relation between IR nodes (Proofs/OptMono.v: wherever the meaning of the original node is defined,
    the rewritten node has the same ordered results up to repetitions of an earlier result — Proofs/OptDD.v — with
-   a bounded amount of extra fuel, fuel staying below usize::MAX) is a preorder and a congruence for every node
+   a bounded amount of extra fuel) is a preorder and a congruence for every node
    constructor; the post-order walk and run_to_fixpoint lift a rewrite rule that establishes it to the whole pass
    (Proofs/OptWalk.v); and every single rewrite of all seven passes — simplify_brackets, decat, unroll_loops,
    promote_1char_loops, form_literal_bytes, remove_empties, propagate_early_fails — establishes it (OptBrackets,
@@ -13,8 +13,8 @@
        one-character loop is a one-instruction leaf), evaluated by the driver on every IR the implementation
        produces and preserved by the passes;
      - a set okp of well-formed positions of the text (character boundaries) among which the node stays (al: every
-       leaf started at such a position ends at one; proved for nodes without backreferences and string sets from the
-       text hypotheses, c03_simple_nodes_stay_well_formed), preserved by the passes;
+       leaf started at such a position ends at one; proved for nodes without \q{...} string sets from the text
+       hypotheses, c03_simple_nodes_stay_well_formed), preserved by the passes;
      - hypotheses on the text at those positions: text_ok (reading an element leads to a well-formed position;
        elements are code points; bytes and elements agree below 128; a one-character step can be undone) and, for
        form_literal_bytes only, text_enc (a scalar value read as an element is its UTF-8 encoding read as bytes).
@@ -32,7 +32,7 @@ From RV Require Import Base.
 From RV.Model Require Import Utf8 Indexer CodePointSet Insn IR Optimizer Unfold Emit Pike Exec Fold.
 From RV.Spec Require Import IRSem IRShape.
 From RV.Gen Require Import FoldTables.
-From RV.Proofs Require Import IndexerFacts Utf8Facts Utf8Valid OptTextUtf8 OptTextAscii OptTextCheck OptDD OptMono OptWalk OptRel OptDecat OptFails OptEmpties OptUnroll OptPromote OptBrackets OptBytes OptTop OptEmit PikeDen PikeCorrect PikeTop.
+From RV.Proofs Require Import IndexerFacts MatchRange AsciiUtf8 Utf8Facts Utf8Valid OptTextUtf8 OptTextAscii OptTextCheck OptDD OptMono OptWalk OptRel OptDecat OptFails OptEmpties OptUnroll OptPromote OptBrackets OptBytes OptTop OptEmit PikeDen PikeCorrect PikeTop.
 
 (* the relation is a congruence: the walk lifts a sound rewrite rule to a pass *)
 Theorem c03_walk_lifts_rewrite_rule : forall ix unicode utf16 h (okp : nat -> Prop) (func : bool -> node -> R action),
@@ -49,9 +49,13 @@ Theorem c03_decat_sound : forall ix unicode utf16 h (okp : nat -> Prop) fuel n n
   run_to_fixpoint decat fuel n = Ok n' -> pass_ok ix unicode utf16 h okp n n'.
 Proof. intros ix unicode utf16 h okp fuel n n' E. exact (decat_pass_sound ix unicode utf16 h okp fuel n n' E). Qed.
 
-Theorem c03_unroll_loops_sound : forall ix unicode utf16 h (okp : nat -> Prop) fuel n n',
-  run_to_fixpoint unroll_loops fuel n = Ok n' -> pass_ok ix unicode utf16 h okp n n'.
-Proof. intros ix unicode utf16 h okp fuel n n' E. exact (unroll_pass_sound ix unicode utf16 h okp fuel n n' E). Qed.
+Theorem c03_unroll_loops_sound : forall ix unicode utf16 h (okp : nat -> Prop),
+  ix_ok ix -> short h -> (forall q, okp q -> (q <= length h)%nat) ->
+  forall fuel n n', run_to_fixpoint unroll_loops fuel n = Ok n' -> pass_ok ix unicode utf16 h okp n n'.
+Proof.
+  intros ix unicode utf16 h okp (Hcur & Hdir) Hlen Hk0 fuel n n' E.
+  exact (unroll_pass_sound ix unicode utf16 h okp Hcur Hdir Hk0 Hlen fuel n n' E).
+Qed.
 
 Theorem c03_remove_empties_sound : forall ix unicode utf16 h (okp : nat -> Prop) fuel n n',
   run_to_fixpoint remove_empties fuel n = Ok n' -> pass_ok ix unicode utf16 h okp n n'.
@@ -72,41 +76,41 @@ Theorem c03_simplify_brackets_sound : forall ix unicode utf16 h (okp : nat -> Pr
   text_ok ix unicode h okp ->
   forall fuel n n', run_to_fixpoint simplify_brackets fuel n = Ok n' -> pass_ok ix unicode utf16 h okp n n'.
 Proof.
-  intros ix unicode utf16 h okp (Hk1 & _ & Hcp & Hb1 & Hb2 & _) fuel n n' E.
+  intros ix unicode utf16 h okp (_ & Hk1 & _ & _ & Hcp & Hb1 & Hb2 & _) fuel n n' E.
   exact (brackets_pass_sound ix unicode utf16 h okp Hk1 Hcp Hb1 Hb2 fuel n n' E).
 Qed.
 
 (* a refining node gives the same leftmost search from a well-formed start, the trailing Goal stripped on both sides *)
 Theorem c03_refinement_preserves_search : forall ix unicode utf16 h (okp : nat -> Prop) n n',
   text_ok ix unicode h okp -> ref ix unicode utf16 h okp true n n' ->
-  exists K, forall fuel ngroups tries p r, fuel_ok (fuel + K) -> okp p ->
+  exists K, forall fuel ngroups tries p r, okp p ->
     ir_search ix unicode utf16 h fuel (ir_top n) ngroups tries p = Some r ->
     ir_search ix unicode utf16 h (fuel + K) (ir_top n') ngroups tries p = Some r.
 Proof. exact top_search_ref. Qed.
 
 (* optimize() of the utf16 build (form_literal_bytes is compiled out): the search is unchanged *)
 Theorem c03_optimize_sound_utf16_build : forall ix unicode utf16 h (okp : nat -> Prop),
-  text_ok ix unicode h okp ->
+  ix_ok ix -> short h -> text_ok ix unicode h okp ->
   forall n n', optimize true n = Ok n' -> qok n = true -> al ix unicode utf16 h okp n ->
-  exists K, forall fuel ngroups tries p r, fuel_ok (fuel + K) -> okp p ->
+  exists K, forall fuel ngroups tries p r, okp p ->
     ir_search ix unicode utf16 h fuel (ir_top n) ngroups tries p = Some r ->
     ir_search ix unicode utf16 h (fuel + K) (ir_top n') ngroups tries p = Some r.
 Proof.
-  intros ix unicode utf16 h okp Ht n n' E Hq Ha.
-  destruct (optimize_sound_utf16_build ix unicode utf16 h okp Ht n n' E Hq Ha) as [Hr _].
+  intros ix unicode utf16 h okp Hi Hsh Ht n n' E Hq Ha.
+  destruct (optimize_sound_utf16_build ix unicode utf16 h okp Hi Hsh Ht n n' E Hq Ha) as [Hr _].
   apply top_search_ref; assumption.
 Qed.
 
 (* optimize(), either build *)
 Theorem c03_optimize_sound : forall ix unicode utf16 h (okp : nat -> Prop),
-  text_ok ix unicode h okp -> text_enc ix h okp ->
+  ix_ok ix -> short h -> text_ok ix unicode h okp -> text_enc ix h okp ->
   forall u16 n n', optimize u16 n = Ok n' -> qok n = true -> al ix unicode utf16 h okp n ->
-  exists K, forall fuel ngroups tries p r, fuel_ok (fuel + K) -> okp p ->
+  exists K, forall fuel ngroups tries p r, okp p ->
     ir_search ix unicode utf16 h fuel (ir_top n) ngroups tries p = Some r ->
     ir_search ix unicode utf16 h (fuel + K) (ir_top n') ngroups tries p = Some r.
 Proof.
-  intros ix unicode utf16 h okp Ht He u16 n n' E Hq Ha.
-  destruct (optimize_sound ix unicode utf16 h okp Ht He u16 n n' E Hq Ha) as [Hr _].
+  intros ix unicode utf16 h okp Hi Hsh Ht He u16 n n' E Hq Ha.
+  destruct (optimize_sound ix unicode utf16 h okp Hi Hsh Ht He u16 n n' E Hq Ha) as [Hr _].
   apply top_search_ref; assumption.
 Qed.
 
@@ -114,41 +118,41 @@ Theorem c03_form_literal_bytes_sound : forall ix unicode utf16 h (okp : nat -> P
   text_ok ix unicode h okp -> text_enc ix h okp ->
   forall fuel n n', run_to_fixpoint form_literal_bytes fuel n = Ok n' -> pass_ok ix unicode utf16 h okp n n'.
 Proof.
-  intros ix unicode utf16 h okp (Hk1 & _ & _ & Hb1 & Hb2 & _) (Hk0 & He1 & He2) fuel n n' E.
+  intros ix unicode utf16 h okp (Hk0 & Hk1 & _ & _ & _ & Hb1 & Hb2 & _) (He1 & He2) fuel n n' E.
   exact (literal_pass_sound ix unicode utf16 h okp Hk0 Hk1 Hb1 Hb2 He1 He2 fuel n n' E).
 Qed.
 
-(* a node without byte-level leaves, backreferences or string sets (what the parser produces for a pattern without
-   backreferences and \q{...}) stays among the well-formed positions: for such nodes the hypothesis [al] follows from
+(* a node without byte-level leaves or string sets (what the parser produces for a pattern without \q{...}) stays
+   among the well-formed positions: for such nodes the hypothesis [al] follows from
    the text hypotheses *)
 Theorem c03_simple_nodes_stay_well_formed : forall ix unicode utf16 h (okp : nat -> Prop),
   text_ok ix unicode h okp -> forall n, simple n = true -> al ix unicode utf16 h okp n.
 Proof.
-  intros ix unicode utf16 h okp (Hk1 & _ & _ & Hb1 & _ & _) n Hs.
-  exact (al_simple ix unicode utf16 h okp Hk1 Hb1 n Hs).
+  intros ix unicode utf16 h okp (_ & Hk1 & _ & Hk4 & _ & Hb1 & _ & _) n Hs.
+  exact (al_simple ix unicode utf16 h okp Hk1 Hk4 Hb1 n Hs).
 Qed.
 
 Theorem c03_optimize_sound_utf16_build_simple : forall ix unicode utf16 h (okp : nat -> Prop),
-  text_ok ix unicode h okp ->
+  ix_ok ix -> short h -> text_ok ix unicode h okp ->
   forall n n', optimize true n = Ok n' -> qok n = true -> simple n = true ->
-  exists K, forall fuel ngroups tries p r, fuel_ok (fuel + K) -> okp p ->
+  exists K, forall fuel ngroups tries p r, okp p ->
     ir_search ix unicode utf16 h fuel (ir_top n) ngroups tries p = Some r ->
     ir_search ix unicode utf16 h (fuel + K) (ir_top n') ngroups tries p = Some r.
 Proof.
-  intros ix unicode utf16 h okp Ht n n' E Hq Hs.
-  apply (c03_optimize_sound_utf16_build ix unicode utf16 h okp Ht n n' E Hq).
+  intros ix unicode utf16 h okp Hi Hsh Ht n n' E Hq Hs.
+  apply (c03_optimize_sound_utf16_build ix unicode utf16 h okp Hi Hsh Ht n n' E Hq).
   apply c03_simple_nodes_stay_well_formed; assumption.
 Qed.
 
 Theorem c03_optimize_sound_simple : forall ix unicode utf16 h (okp : nat -> Prop),
-  text_ok ix unicode h okp -> text_enc ix h okp ->
+  ix_ok ix -> short h -> text_ok ix unicode h okp -> text_enc ix h okp ->
   forall u16 n n', optimize u16 n = Ok n' -> qok n = true -> simple n = true ->
-  exists K, forall fuel ngroups tries p r, fuel_ok (fuel + K) -> okp p ->
+  exists K, forall fuel ngroups tries p r, okp p ->
     ir_search ix unicode utf16 h fuel (ir_top n) ngroups tries p = Some r ->
     ir_search ix unicode utf16 h (fuel + K) (ir_top n') ngroups tries p = Some r.
 Proof.
-  intros ix unicode utf16 h okp Ht He u16 n n' E Hq Hs.
-  apply (c03_optimize_sound ix unicode utf16 h okp Ht He u16 n n' E Hq).
+  intros ix unicode utf16 h okp Hi Hsh Ht He u16 n n' E Hq Hs.
+  apply (c03_optimize_sound ix unicode utf16 h okp Hi Hsh Ht He u16 n n' E Hq).
   apply c03_simple_nodes_stay_well_formed; assumption.
 Qed.
 
@@ -158,6 +162,7 @@ Qed.
 Theorem c03_text_check_sound : forall ix unicode h, text_ok_b ix h = true ->
   (forall body fwd s q q', matches_exactly_one_char body = true -> bnd h q ->
      single_step ix unicode h (negb fwd) body fwd = Some s -> s q = Some (Some q') -> step_inv ix h fwd q q' = true) ->
+  (forall fwd p rs re e, bnd h p -> bnd h rs -> bnd h re -> subrange_eq fwd h p rs re = Ok (Some e) -> bnd h e) ->
   text_ok ix unicode h (bnd h).
 Proof. exact text_ok_b_sound. Qed.
 
@@ -167,6 +172,9 @@ Theorem c03_optimize_preserves_invariants : forall u16 n n', optimize u16 n = Ok
   qok n' = true /\ ng n' = ng n.
 Proof. exact optimize_invariants. Qed.
 
+Lemma u8_ix_ok fold : ix_ok (utf8_indexer fold).
+Proof. split; [intros h' fwd p c p'; apply u8_cursor|intros h' fwd p c p'; apply u8_dir]. Qed.
+
 (* ---- where no UTF-8 theory is needed, nothing is left as a hypothesis ---- *)
 (* the text hypotheses hold of every byte string read through the ASCII indexer (the *_ascii entry points), every
    position of the text being well-formed, and every node stays inside the text *)
@@ -174,38 +182,38 @@ Theorem c03_text_ok_ascii : forall h, bytes_ok h -> forall unicode, text_ok asci
 Proof. exact text_ok_ascii. Qed.
 
 (* the utf16 build through the ASCII indexer, any byte string *)
-Theorem c03_optimize_sound_utf16_build_ascii : forall unicode utf16 h, bytes_ok h ->
+Theorem c03_optimize_sound_utf16_build_ascii : forall unicode utf16 h, bytes_ok h -> short h ->
   forall n n', optimize true n = Ok n' -> qok n = true ->
-  exists K, forall fuel ngroups tries p r, fuel_ok (fuel + K) -> (p <= length h)%nat ->
+  exists K, forall fuel ngroups tries p r, (p <= length h)%nat ->
     ir_search ascii_indexer unicode utf16 h fuel (ir_top n) ngroups tries p = Some r ->
     ir_search ascii_indexer unicode utf16 h (fuel + K) (ir_top n') ngroups tries p = Some r.
 Proof.
-  intros unicode utf16 h Hb n n' E Hq.
-  exact (c03_optimize_sound_utf16_build ascii_indexer unicode utf16 h (inside h) (text_ok_ascii h Hb unicode)
+  intros unicode utf16 h Hb Hsh n n' E Hq.
+  exact (c03_optimize_sound_utf16_build ascii_indexer unicode utf16 h (inside h) (conj ascii_cursor ascii_dir) Hsh (text_ok_ascii h Hb unicode)
            n n' E Hq (al_all_ascii h unicode utf16 n)).
 Qed.
 
 (* either build, the ASCII indexer on ASCII text *)
-Theorem c03_optimize_sound_ascii_indexer_ascii_text : forall unicode utf16 h, Forall (fun b => b < 128) h ->
+Theorem c03_optimize_sound_ascii_indexer_ascii_text : forall unicode utf16 h, Forall (fun b => b < 128) h -> short h ->
   forall u16 n n', optimize u16 n = Ok n' -> qok n = true ->
-  exists K, forall fuel ngroups tries p r, fuel_ok (fuel + K) -> (p <= length h)%nat ->
+  exists K, forall fuel ngroups tries p r, (p <= length h)%nat ->
     ir_search ascii_indexer unicode utf16 h fuel (ir_top n) ngroups tries p = Some r ->
     ir_search ascii_indexer unicode utf16 h (fuel + K) (ir_top n') ngroups tries p = Some r.
 Proof.
-  intros unicode utf16 h Ha u16 n n' E Hq.
-  exact (c03_optimize_sound ascii_indexer unicode utf16 h (inside h) (text_ok_ascii h (ascii_bytes_ok h Ha) unicode)
+  intros unicode utf16 h Ha Hsh u16 n n' E Hq.
+  exact (c03_optimize_sound ascii_indexer unicode utf16 h (inside h) (conj ascii_cursor ascii_dir) Hsh (text_ok_ascii h (ascii_bytes_ok h Ha) unicode)
            (text_enc_ascii h Ha) u16 n n' E Hq (al_all_ascii h unicode utf16 n)).
 Qed.
 
 (* either build, the UTF-8 indexer on ASCII text *)
-Theorem c03_optimize_sound_utf8_indexer_ascii_text : forall fold unicode utf16 h, Forall (fun b => b < 128) h ->
+Theorem c03_optimize_sound_utf8_indexer_ascii_text : forall fold unicode utf16 h, Forall (fun b => b < 128) h -> short h ->
   forall u16 n n', optimize u16 n = Ok n' -> qok n = true ->
-  exists K, forall fuel ngroups tries p r, fuel_ok (fuel + K) -> (p <= length h)%nat ->
+  exists K, forall fuel ngroups tries p r, (p <= length h)%nat ->
     ir_search (utf8_indexer fold) unicode utf16 h fuel (ir_top n) ngroups tries p = Some r ->
     ir_search (utf8_indexer fold) unicode utf16 h (fuel + K) (ir_top n') ngroups tries p = Some r.
 Proof.
-  intros fold unicode utf16 h Ha u16 n n' E Hq.
-  exact (c03_optimize_sound (utf8_indexer fold) unicode utf16 h (inside h) (text_ok_utf8_on_ascii fold h Ha unicode)
+  intros fold unicode utf16 h Ha Hsh u16 n n' E Hq.
+  exact (c03_optimize_sound (utf8_indexer fold) unicode utf16 h (inside h) (u8_ix_ok fold) Hsh (text_ok_utf8_on_ascii fold h Ha unicode)
            (text_enc_utf8_on_ascii fold h Ha) u16 n n' E Hq (al_all_utf8_on_ascii fold h unicode utf16 n)).
 Qed.
 
@@ -221,17 +229,18 @@ Proof. intros fold cs unicode Hw. exact (text_ok_utf8 fold cs Hw unicode). Qed.
 Theorem c03_text_enc_utf8 : forall fold cs, wf_text cs -> text_enc (utf8_indexer fold) (concat cs) (Utf8Valid.bnd cs).
 Proof. intros fold cs Hw. exact (text_enc_utf8 fold cs Hw false). Qed.
 
-(* optimize(), either build, the UTF-8 indexer on any well-formed UTF-8 text, a pattern without backreferences and
-   string sets, a start at a character boundary: no hypothesis left on the text *)
-Theorem c03_optimize_sound_utf8_text : forall fold unicode utf16 h cs, utf8_chars (length h) h = Some cs ->
+(* optimize(), either build, the UTF-8 indexer on any well-formed UTF-8 text, a pattern without \q{...}
+   string sets, a start at a character boundary, a text shorter than usize::MAX: no other hypothesis
+   on the text *)
+Theorem c03_optimize_sound_utf8_text : forall fold unicode utf16 h cs, utf8_chars (length h) h = Some cs -> short h ->
   forall u16 n n', optimize u16 n = Ok n' -> qok n = true -> simple n = true ->
-  exists K, forall fuel ngroups tries p r, fuel_ok (fuel + K) -> Utf8Valid.bnd cs p ->
+  exists K, forall fuel ngroups tries p r, Utf8Valid.bnd cs p ->
     ir_search (utf8_indexer fold) unicode utf16 h fuel (ir_top n) ngroups tries p = Some r ->
     ir_search (utf8_indexer fold) unicode utf16 h (fuel + K) (ir_top n') ngroups tries p = Some r.
 Proof.
-  intros fold unicode utf16 h cs Hch u16 n n' E Hq Hs.
+  intros fold unicode utf16 h cs Hch Hsh u16 n n' E Hq Hs.
   destruct (utf8_chars_ok _ _ _ Hch) as [Hw Hcat]. subst h.
-  exact (c03_optimize_sound_simple (utf8_indexer fold) unicode utf16 (concat cs) (Utf8Valid.bnd cs)
+  exact (c03_optimize_sound_simple (utf8_indexer fold) unicode utf16 (concat cs) (Utf8Valid.bnd cs) (u8_ix_ok fold) Hsh
            (text_ok_utf8 fold cs Hw unicode) (text_enc_utf8 fold cs Hw unicode) u16 n n' E Hq Hs).
 Qed.
 
@@ -250,30 +259,29 @@ Qed.
 
 (* the program emitted for the optimized node and the program emitted for the original node give the PikeVM the same
    answer: the leftmost-first match of the IR semantics of the original pattern (well-formed UTF-8 text, a start at a
-   character boundary, a pattern without backreferences and string sets; top_shape, ir_wf and qok are evaluated by the
-   driver on every IR; K, a constant of the pattern, is the fuel slack of the optimizer theorem: the sum of the slacks
-   of the rewrites performed, at most 4 each — the proof does not bound it numerically) *)
+   character boundary, a pattern without \q{...} string sets; top_shape, ir_wf and qok are evaluated by the
+   driver on every IR; short h: the text is shorter than usize::MAX, so that no loop counter reaches the value that stands for "unbounded") *)
 Theorem c03_pikevm_same_answer_after_optimize :
   forall fold h cs utf16 unicode ml n n' body body' prog names prog' names',
-  utf8_chars (length h) h = Some cs ->
+  utf8_chars (length h) h = Some cs -> short h ->
   optimize utf16 n = Ok n' -> qok n = true -> simple n = true ->
   top_shape n body -> top_shape n' body' ->
   emit utf16 unicode ml n = Ok (prog, names) -> emit utf16 unicode ml n' = Ok (prog', names') ->
   ir_wf (NCat body) = true -> ir_wf (NCat body') = true ->
-  exists K, forall fuel tries p r, fuel_ok (fuel + K) -> Utf8Valid.bnd cs p ->
+  forall fuel tries p r, Utf8Valid.bnd cs p ->
   ir_search (utf8_indexer fold) unicode utf16 h fuel (NCat body) (p_groups prog) tries p = Some r ->
   exists f0 k k', forall pfuel m budget, (f0 <= pfuel)%nat -> m + k <= budget -> m + k' <= budget ->
     pk_search (utf8_indexer fold) prog h budget pfuel tries (pk_init_state prog p) m = (result_of (utf8_indexer fold) h r, m + k) /\
     pk_search (utf8_indexer fold) prog' h budget pfuel tries (pk_init_state prog' p) m = (result_of (utf8_indexer fold) h r, m + k').
 Proof.
-  intros fold h cs utf16 unicode ml n n' body body' prog names prog' names' Hch Eo Hq Hs Ht Ht' Ee Ee' Hwf Hwf'.
+  intros fold h cs utf16 unicode ml n n' body body' prog names prog' names' Hch Hsh Eo Hq Hs Ht Ht' Ee Ee' Hwf Hwf'.
   destruct (optimize_invariants utf16 n n' Eo Hq) as [Hq' Hng].
   assert (Hg : p_groups prog' = p_groups prog).
   { rewrite (emit_program_groups utf16 unicode ml n prog names Hq Ee), (emit_program_groups utf16 unicode ml n' prog' names' Hq' Ee'). exact Hng. }
-  destruct (c03_optimize_sound_utf8_text fold unicode utf16 h cs Hch utf16 n n' Eo Hq Hs) as [K HK].
-  exists K. intros fuel tries p r Hfuel Hp Es.
+  destruct (c03_optimize_sound_utf8_text fold unicode utf16 h cs Hch Hsh utf16 n n' Eo Hq Hs) as [K HK].
+  intros fuel tries p r Hp Es.
   rewrite <- (top_shape_ir_top n body Ht) in Es.
-  pose proof (HK fuel (p_groups prog) tries p r Hfuel Hp Es) as Es'.
+  pose proof (HK fuel (p_groups prog) tries p r Hp Es) as Es'.
   rewrite (top_shape_ir_top n body Ht) in Es. rewrite (top_shape_ir_top n' body' Ht') in Es'. rewrite <- Hg in Es'.
   destruct (pike_emit_correct (utf8_indexer fold) h utf16 unicode ml n body prog names fuel tries p r Ht Ee Hwf Es) as (f1 & k & H1).
   destruct (pike_emit_correct (utf8_indexer fold) h utf16 unicode ml n' body' prog' names' (fuel + K) tries p r Ht' Ee' Hwf' Es') as (f2 & k' & H2).
